@@ -192,6 +192,12 @@ func (o Op) Coq() string {
 		return fmt.Sprintf("NewAlways %d%%nat", o.A)
 	case "NewBind":
 		return fmt.Sprintf("NewBind %s %d%%nat", casesCoq(o.Cases), o.A)
+	case "NewBindMemo":
+		return fmt.Sprintf("NewBindMemo %s %d%%nat", casesCoq(o.Cases), o.A)
+	case "PurgeMemo":
+		return fmt.Sprintf("PurgeMemo %d%%nat %s", o.A, hx.Z(int64(o.V)))
+	case "ClearMemo":
+		return fmt.Sprintf("ClearMemo %d%%nat", o.A)
 	case "Observe":
 		return fmt.Sprintf("Observe %d%%nat", o.A)
 	case "Unobserve":
@@ -236,6 +242,12 @@ func (o Op) String() string {
 		return fmt.Sprintf("Always(n%d)", o.A)
 	case "NewBind":
 		return fmt.Sprintf("Bind(n%d){%s}", o.A, casesStr(o.Cases))
+	case "NewBindMemo":
+		return fmt.Sprintf("BindMemoized(n%d){%s}", o.A, casesStr(o.Cases))
+	case "PurgeMemo":
+		return fmt.Sprintf("n%d.Cache().Purge(%d)", o.A, o.V)
+	case "ClearMemo":
+		return fmt.Sprintf("n%d.Cache().Clear()", o.A)
 	case "Observe":
 		return fmt.Sprintf("Observe(n%d)", o.A)
 	case "Unobserve":
